@@ -31,9 +31,12 @@
 // entry also carries a declared validity (the feature ID is present in the
 // pre-state or not; the line string has two points or one), and the entrywise
 // application has to agree with it. The response must report an error iff
-// applying the change failed. Changes read from files have no entry list (the
-// type is private); for them, as before, the differential with Change.Apply on
-// an identical fresh world decides.
+// applying the change failed. The entries of a change read from a file can't be
+// read from the change (the type is private): for files made of tag-edit
+// documents only (add / remove lists on a present or absent ID) the entries are
+// written out by hand next to the file text; for files with feature documents,
+// as before, the differential with Change.Apply on an identical fresh world
+// decides.
 // As before, the identical change is also applied with Change.Apply to a second
 // identical world: on success the IDs returned must be those Apply reports,
 // contain every target feature whose own tags/existence changed and nothing but
@@ -130,6 +133,10 @@ type part struct {
 	// collection, in order (a pure rule: is the ID present in the pre-state;
 	// has the line string two points)
 	entries []entryDecl
+	// change files of tag-edit documents only: the entries, written out by
+	// hand (the change type read from a file is private; its entries can't be
+	// read from the change)
+	ops func() []op
 }
 
 // entryDecl: one entry of a multi-entry collection and whether applying it on
@@ -283,7 +290,57 @@ func parts(x ids) []part {
 	add(filePart("file:area-over-missing-path", "missing-area.yaml", areaDoc(x.A1, x.MissingW), x.A1))
 	add(filePart("file:point-path-area-chain", "chain.yaml",
 		fmt.Sprintf("id: %s\ntags:\n- key: point\n  value:\n    point: 51.5355,-0.1245\n", lit(x.Q))+"---\n"+pathDoc(x.W1, x.P[0], x.P[1], x.Q, x.P[0])+"---\n"+areaDoc(x.A1, x.W1), x.Q, x.W1, x.A1))
-	add(filePart("file:tag-edits", "tags.yaml", fmt.Sprintf("id: %s\nadd:\n- key: p\n  value: x\nremove:\n- '#amenity'\n", lit(x.P[0])), x.P[0]))
+	// documents that only edit tags: "add" entries, then "remove" entries
+	type tagDoc struct {
+		id          b6.FeatureID
+		add, remove []string // keys; added with value "x"
+	}
+	tagFile := func(name, file string, docs ...tagDoc) part {
+		var texts []string
+		var targets []b6.FeatureID
+		for _, d := range docs {
+			t := fmt.Sprintf("id: %s\n", lit(d.id))
+			if len(d.add) > 0 {
+				t += "add:\n"
+				for _, k := range d.add {
+					t += fmt.Sprintf("- key: '%s'\n  value: x\n", k)
+				}
+			}
+			if len(d.remove) > 0 {
+				t += "remove:\n"
+				for _, k := range d.remove {
+					t += fmt.Sprintf("- '%s'\n", k)
+				}
+			}
+			texts = append(texts, t)
+			targets = append(targets, d.id)
+		}
+		p := filePart(name, file, strings.Join(texts, "---\n"), targets...)
+		p.ops = func() []op {
+			var ops []op
+			for _, d := range docs {
+				d := d
+				for _, k := range d.add {
+					k := k
+					ops = append(ops, op{kind: "add-tag", id: d.id, do: func(w ingest.MutableWorld) error { return w.AddTag(d.id, tag(k, "x")) }})
+				}
+				for _, k := range d.remove {
+					k := k
+					ops = append(ops, op{kind: "remove-tag", id: d.id, do: func(w ingest.MutableWorld) error { return w.RemoveTag(d.id, k) }})
+				}
+			}
+			for i := range ops {
+				ops[i].idx, ops[i].n = i, len(ops)
+			}
+			return ops
+		}
+		return p
+	}
+	add(tagFile("file:tag-edits", "tags.yaml", tagDoc{x.P[0], []string{"p"}, []string{"#amenity"}}))
+	add(tagFile("file:add-tag-on-absent-id", "tag-absent.yaml", tagDoc{x.Missing, []string{"p"}, nil}))
+	add(tagFile("file:remove-tag-on-absent-id", "untag-absent.yaml", tagDoc{x.Missing, nil, []string{"p"}}))
+	add(tagFile("file:tag-edits:absent-id-then-present-id", "tags-absent-present.yaml", tagDoc{x.Missing, []string{"p"}, nil}, tagDoc{x.P[1], []string{"p"}, nil}))
+	add(tagFile("file:tag-edits:present-id-then-absent-id", "tags-present-absent.yaml", tagDoc{x.P[1], []string{"p"}, nil}, tagDoc{x.Missing, []string{"p"}, nil}))
 	add(filePart("file:malformed", "broken.yaml", "id: [unclosed\n", x.P[0]))
 	// --- collections of 2..3 entries, each entry independently valid or failing
 	ps = append(ps, multiEntryParts(x)...)
@@ -456,12 +513,13 @@ var mergeMenu = []string{"add-tag:searchable:base-point", "add-tag:plain:base-po
 type change struct {
 	name   string
 	kind   string
-	parts  []part // len 1 = plain; more = merge-changes; nested = merge of merge
-	nested bool
+	parts  []part
+	merged bool // false: parts[0] itself; true: merge-changes over the parts (also over a single part)
+	nested bool // merge-changes [ merge-changes [parts[:n-1]], parts[n-1] ]
 }
 
 func (c change) shell(dir string) string {
-	if len(c.parts) == 1 && !c.nested {
+	if !c.merged {
 		return c.parts[0].shell(dir)
 	}
 	var ps []string
@@ -477,7 +535,7 @@ func (c change) shell(dir string) string {
 }
 
 func (c change) ref(dir string) ingest.Change {
-	if len(c.parts) == 1 && !c.nested {
+	if !c.merged {
 		return c.parts[0].ref(dir)
 	}
 	var m ingest.MergedChange
@@ -488,6 +546,23 @@ func (c change) ref(dir string) ingest.Change {
 		return ingest.MergedChange{m[:len(m)-1], m[len(m)-1]}
 	}
 	return m
+}
+
+// ops: the entries of the change in application order; ok is false if a part
+// has no readable entries.
+func (c change) ops(dir string) (ops []op, ok bool) {
+	for _, p := range c.parts {
+		if p.ops != nil {
+			ops = append(ops, p.ops()...)
+			continue
+		}
+		o, ok := elementary(p.ref(dir))
+		if !ok {
+			return nil, false
+		}
+		ops = append(ops, o...)
+	}
+	return ops, true
 }
 
 func (c change) targets() map[b6.FeatureID]bool {
@@ -524,9 +599,9 @@ func changes(x ids, maxMerge int) []change {
 			cur = append(cur, menu[i])
 			names = append(names, menu[i].name)
 		}
-		out = append(out, change{name: "merge[" + strings.Join(names, ", ") + "]", kind: "merged-change", parts: cur})
+		out = append(out, change{name: "merge[" + strings.Join(names, ", ") + "]", kind: "merged-change", parts: cur, merged: true})
 		if len(cur) == 2 {
-			out = append(out, change{name: "merge[merge[" + names[0] + "], " + names[1] + "]", kind: "merged-change", parts: cur, nested: true})
+			out = append(out, change{name: "merge[merge[" + names[0] + "], " + names[1] + "]", kind: "merged-change", parts: cur, merged: true, nested: true})
 		}
 	}
 	return out
@@ -770,12 +845,19 @@ func (e *env) run(cd caseDef) kit.Result {
 	pre := prestates[cd.pre]
 	root := roots[cd.root]
 	evaluator := evaluators[cd.eval]
-	dir, err := os.MkdirTemp("", "c26-")
-	if err != nil {
-		r.Violate("harness:tempdir", "%v", err)
-		return r
+	needsFiles := false
+	for _, p := range ch.parts {
+		needsFiles = needsFiles || len(p.files) > 0
 	}
-	defer os.RemoveAll(dir)
+	dir := ""
+	if needsFiles {
+		var err error
+		if dir, err = os.MkdirTemp("", "c26-"); err != nil {
+			r.Violate("harness:tempdir", "%v", err)
+			return r
+		}
+		defer os.RemoveAll(dir)
+	}
 	for _, p := range ch.parts {
 		for name, text := range p.files {
 			if err := os.WriteFile(filepath.Join(dir, name), []byte(text), 0o644); err != nil {
@@ -785,7 +867,11 @@ func (e *env) run(cd caseDef) kit.Result {
 		}
 	}
 	text := ch.shell(dir)
-	desc := fmt.Sprintf("evaluator=%s root=%s pre-state=%s\nexpression: %s", evaluator, root, pre.name, strings.ReplaceAll(text, dir, "<dir>"))
+	shown := text
+	if dir != "" {
+		shown = strings.ReplaceAll(text, dir, "<dir>")
+	}
+	desc := fmt.Sprintf("evaluator=%s root=%s pre-state=%s\nexpression: %s", evaluator, root, pre.name, shown)
 	r.Key = fmt.Sprintf("%s|%s|%s|%d", evaluator, ch.name, pre.name, cd.root)
 	r.Nontrivial = true
 
@@ -848,7 +934,7 @@ func (e *env) run(cd caseDef) kit.Result {
 
 	// entrywise application: the entries of the identical change, one by one,
 	// with the world's elementary operations, on a third identical world
-	ops, modelled := elementary(ch.ref(dir))
+	ops, modelled := ch.ops(dir)
 	failAt := -1
 	var failErr error
 	var modelAfter wk.Dump
@@ -873,7 +959,7 @@ func (e *env) run(cd caseDef) kit.Result {
 			modelAfter = e.dump(model)
 		}
 		// the declared validity of the entries of a multi-entry collection
-		if len(ch.parts) == 1 && !ch.nested && ch.parts[0].entries != nil {
+		if !ch.merged && ch.parts[0].entries != nil {
 			decl := ch.parts[0].entries
 			want, shape := -1, make([]string, len(decl))
 			for i := len(decl) - 1; i >= 0; i-- {
@@ -913,10 +999,10 @@ func (e *env) run(cd caseDef) kit.Result {
 			r.Count("entrywise:every-entry-succeeds", 1)
 		}
 	} else {
-		r.Count("decided-by:direct-apply-only(file-change)", 1)
+		r.Count("decided-by:direct-apply-only(file-with-feature-documents)", 1)
 	}
 	if cd.change%7 == 0 && cd.pre == 0 && cd.root == 0 {
-		sm := map[string]interface{}{"evaluator": evaluator, "expression": strings.ReplaceAll(text, dir, "<dir>"), "pre_state": pre.name, "reference_apply_error": fmt.Sprint(refErr), "response_error": fmt.Sprint(got.err)}
+		sm := map[string]interface{}{"evaluator": evaluator, "expression": shown, "pre_state": pre.name, "reference_apply_error": fmt.Sprint(refErr), "response_error": fmt.Sprint(got.err)}
 		if modelled {
 			sm["entries"] = len(ops)
 			sm["entrywise_first_failure"] = "none"
@@ -939,7 +1025,7 @@ func (e *env) run(cd caseDef) kit.Result {
 	case fails && got.err == nil:
 		// modelled, and Change.Apply itself reports success
 		r.Violate(fmt.Sprintf("%s:no-error-reported-though-entry-fails:%s:%s:%s", evaluator, ch.kind, ops[failAt].kind, ops[failAt].pos()),
-			"%s\napplying the %d entries of the identical change one by one (MutableWorld.AddTag/RemoveTag/AddFeature) to an identical fresh world fails at %s: %v\nthe response reports no error (result %s, ids %s); Change.Apply of the identical change on an identical fresh world also reports no error (ids %s); world changed by the evaluation: %v",
+			"%s\napplying the entries of the identical change (%d) one by one (MutableWorld.AddTag/RemoveTag/AddFeature) to an identical fresh world fails at %s: %v\nthe response reports no error (result %s, ids %s); Change.Apply of the identical change on an identical fresh world also reports no error (ids %s); world changed by the evaluation: %v",
 			desc, len(ops), ops[failAt], failErr, got.typ, idSet(got.ids), idSet(refIDs), changed)
 	case !fails && got.err != nil && refErr == nil:
 		r.Violate(fmt.Sprintf("%s:error-reported-though-apply-succeeds:%s", evaluator, ch.kind),
@@ -1014,20 +1100,20 @@ type caseDef struct{ change, pre, root, eval int }
 func main() {
 	kit.Main(&kit.Check{
 		ID: "C26", Level: "exploration",
-		Rule: "every change of the menu: (a) single changes: 15 tag edits on present/absent IDs; 14 feature additions via add-point/add-relation/add-collection/import-geojson/connect incl. failing ones; 8 change files incl. path over a missing point, area over an open path, area over a missing path, malformed file; " +
+		Rule: "every change of the menu: (a) single changes: 15 tag edits on present/absent IDs; 14 feature additions via add-point/add-relation/add-collection/import-geojson/connect incl. failing ones; 12 change files incl. path over a missing point, area over an open path, area over a missing path, malformed file, and 5 files of tag-edit documents (add/remove lists) on a present ID, an absent ID, absent then present, present then absent; " +
 			"(b) multi-entry collections: every add-tags and every remove-tags change whose collection is a sequence (repetition allowed, every order) of 2..3 entries over a 5-entry menu {2 entries on base features (plain and searchable key), 1 entry on a point that only one pre-state contains, 2 entries on absent IDs}, and every import-geojson feature collection that is a sequence of 2..3 features over {point, line string, line string of one point (invalid), polygon} - so every pattern valid/failing x valid/failing (x valid/failing), failure first / middle / last / several; " +
 			"(c) every merge-changes sequence of <= M parts over a 20-part menu of succeeding and failing parts (11 single-entry parts incl. 2 change files; 9 multi-entry parts: add-tags [valid valid], [failing valid], [valid failing], [valid failing valid], [valid-once-the-point-exists valid], remove-tags [failing valid], [valid failing], import-geojson [invalid valid], [valid invalid]), and the nested form merge[merge[a], b] of every 2-part sequence; " +
 			"each x 3 pre-states x 2 world roots x {gRPC Evaluate, api.Evaluator.EvaluateExpression}; ordered single changes, 2-entry collections, 3-entry collections, merges by length. Expressions are shell text parsed with api.ParseExpression. Every case is non-trivial; distinct by (evaluator, change, pre-state, root). " +
-			"Oracle: 'applying the change failed' is decided without Change.Apply: the identical change built with ingest constructors is taken apart into its entries (merged changes flattened in order) and these are applied one by one with MutableWorld.AddTag/RemoveTag/AddFeature to an identical fresh MutableOverlayWorld in the identical pre-state; it failed iff an operation returns an error (for (b) this must also agree with the declared validity of each entry: ID present in the pre-state / line string has 2 points). The response must report an error iff applying failed (changes from files have no readable entries: Change.Apply on an identical fresh world decides, as it does for the remaining demands). " +
+			"Oracle: 'applying the change failed' is decided without Change.Apply: the identical change built with ingest constructors is taken apart into its entries (merged changes flattened in order) and these are applied one by one with MutableWorld.AddTag/RemoveTag/AddFeature to an identical fresh MutableOverlayWorld in the identical pre-state; it failed iff an operation returns an error (for (b) this must also agree with the declared validity of each entry: ID present in the pre-state / line string has 2 points). The response must report an error iff applying failed (the entries of a file of tag-edit documents are written out by hand; files with feature documents have no readable entries: for them Change.Apply on an identical fresh world decides, as it does for the remaining demands). " +
 			"On success returned IDs == IDs Change.Apply reports, are targets of the change, and include every target whose existence/tags/geometry changed; evaluator's world dump == dump of the identical world after Change.Apply of the identical change, and, when no error is reported and every entry succeeds, == dump of the world with the entries applied one by one.",
 		Assumptions: []string{
-			"'applying the change failed' is read as: applying the entries of the change in order with the world's elementary operations (AddTag, RemoveTag, AddFeature), one of them returns an error; for changes read from files (no readable entries): Change.Apply of the identical change on an identical fresh world returns an error",
+			"'applying the change failed' is read as: applying the entries of the change in order with the world's elementary operations (AddTag, RemoveTag, AddFeature), one of them returns an error; for changes read from files containing feature documents (no readable entries): Change.Apply of the identical change on an identical fresh world returns an error",
 			"a response error for a change all of whose entries succeed one by one is a violation only if Change.Apply on an identical world succeeds or the evaluator's world shows every entry applied; otherwise (Apply itself fails and the world is not the fully applied one) applying did fail and the error is due",
 			"after a failing change the evaluator's world is compared with the reference world after the same failing Apply (AddTags/AddFeatures are not atomic; atomicity is C13's subject), not with the world before",
 			"returned IDs are compared as sets",
 			"callers of Evaluator.EvaluateExpression hold the read lock, as ui.OpenSourceUI.ServeStack does",
 		},
-		QuickDeadline: 300e9, ThoroughDeadline: 1500e9,
+		QuickDeadline: 900e9, ThoroughDeadline: 3600e9,
 		Build: func(tier string) (kit.Space, string) {
 			maxMerge := 2
 			if tier == "thorough" {
